@@ -195,6 +195,31 @@ theorem pythValueToDecimal_spec {value t q : Nat} {e : Int} {r : Decimal}
       · obtain ⟨rfl, rfl⟩ := p1 hc; exact hv
       · obtain ⟨rfl, rfl⟩ := p2 hc; rw [hv, exact_ge (Nat.zero_le _), Nat.sub_zero]
 
+/-- **F-C26 witness**: for the exponent `i32::MIN` the negation `-exponent` overflows; with overflow
+checks on (the repo's release profile) the call panics instead of returning an error. -/
+theorem pyth_min_exponent_witness : pythValueToDecimal 1 (-(2 ^ 31)) 8 2 = .error .panic := by decide
+
+/-- … and that is the only way it can: every other `i32` exponent yields a value or an error. -/
+theorem pythValueToDecimal_partial (value : Nat) (e : Int) (t q : Nat) (h : -(2 ^ 31) < e) :
+    pythValueToDecimal value e t q ≠ .error .panic := by
+  unfold pythValueToDecimal
+  cases hp : pythPre value e with
+  | error x =>
+    simp only
+    intro hc; cases hc
+    unfold pythPre at hp
+    by_cases he : e ≤ 0
+    · rw [if_pos he, if_neg (by omega)] at hp
+      split at hp <;> cases hp
+    · rw [if_neg he] at hp
+      split at hp
+      · cases hp
+      · split at hp <;> cases hp
+  | ok vd =>
+    obtain ⟨v, d⟩ := vd
+    simp only
+    cases tryFromPrice v d t q <;> simp
+
 /-! ### Non-vacuity (the repo's own examples and boundary cases) -/
 example : tryFromPrice 5000000000000000000000 18 8 4 = .ok ⟨50000000, 8⟩ := by decide
 example : tryFromPrice 177347 10 5 9 = .ok ⟨17734, 6⟩ := by decide          -- truncation, d > t, q < d
